@@ -617,6 +617,48 @@ def _ownership(prog: Program, run: Run) -> None:
 
 
 # ----------------------------------------------------------------------- R3
+def _requires_present(test: ast.expr, pol: bool) -> Optional[str]:
+    """`self.<f>` when (test, polarity) can only hold if self.<f> is present (not None)."""
+    if isinstance(test, ast.UnaryOp) and isinstance(test.op, ast.Not):
+        return _requires_present(test.operand, not pol)
+    if isinstance(test, ast.Compare) and len(test.ops) == 1 and isinstance(
+            test.comparators[0], ast.Constant) and test.comparators[0].value is None:
+        e, op = test.left, test.ops[0]
+        if (isinstance(op, ast.IsNot) and pol) or (isinstance(op, ast.Is) and not pol):
+            if isinstance(e, ast.Attribute) and isinstance(e.value, ast.Name) and \
+                    e.value.id == "self":
+                return e.attr
+    if pol and isinstance(test, ast.Attribute) and isinstance(test.value, ast.Name) and \
+            test.value.id == "self":
+        return test.attr
+    return None
+
+
+def _guard_independent(run: Run, R: str, c: ClassInfo, m: FuncInfo, call: ast.Call,
+                       name: str) -> None:
+    """The resolve call for self.<name> must not sit under a guard that requires ANOTHER
+    reference field of the same object to be present: ODX lets the alternatives be combined
+    freely (e.g. TABLE-REF with TABLE-ROW-SNREF), so a reference that is only resolved when its
+    sibling is given stays unresolved -- silently -- for the other combinations."""
+    cfg = CFG(m.node)
+    try:
+        node = cfg.node_of(_stmt(m.node, call))
+    except Exception:
+        return
+    for t, pol in cfg.branch_conditions(node):
+        other = _requires_present(t, pol)
+        if other and other != name and (other.endswith("ref") or other.endswith("refs")) and \
+                other.split("_sn")[0].split("_ref")[0] != name.split("_sn")[0].split("_ref")[0]:
+            run.violation(R, f"{c.name}.{name}", f"resolved-only-with-{other}",
+                          f"`{ast.unparse(call)[:90]}` in {c.name}.{m.name} is only reached when "
+                          f"self.{other} is present: with the other way of naming that object "
+                          f"self.{name} is never resolved (and a dangling name is not reported)",
+                          f"{m.module.rel}:{call.lineno}")
+            return
+    run.ok(R, f"{c.name}.{name}", "its resolve call does not depend on a sibling reference being "
+           "present", f"{m.module.rel}:{call.lineno}")
+
+
 def _ref_fields(prog: Program, run: Run) -> None:
     R = "C10.R3"
     seen: Set[int] = set()
@@ -653,6 +695,8 @@ def _ref_fields(prog: Program, run: Run) -> None:
                                     y.value, ast.Name) and y.value.id == "self"
                                    for a2 in x.args for y in ast.walk(a2)):
                                 hit = True
+                                if x.args and ast.unparse(x.args[0]) == f"self.{name}":
+                                    _guard_independent(run, R, c, m, x, name)
                         # loop variable over self.<name>
                         if isinstance(x, (ast.For, ast.comprehension)) and any(
                                 isinstance(y, ast.Attribute) and y.attr == name
